@@ -5022,21 +5022,22 @@ class Entity(object, metaclass=EntityMeta):
             undo_list = []
             objects_to_save = cache.objects_to_save
             save_pos = obj._save_pos_
+            cur_status, cur_save_pos = status, save_pos  # re-read below: clearing own collections may change them
 
             def undo_func():
                 if obj._status_ == 'marked_to_delete':
                     assert objects_to_save
                     obj2 = objects_to_save.pop()
                     assert obj2 is obj
-                    if save_pos is not None:
-                        assert objects_to_save[save_pos] is None
-                        objects_to_save[save_pos] = obj
-                    obj._save_pos_ = save_pos
+                    if cur_save_pos is not None:
+                        assert objects_to_save[cur_save_pos] is None
+                        objects_to_save[cur_save_pos] = obj
+                    obj._save_pos_ = cur_save_pos
                 elif obj._status_ == 'cancelled':
-                    assert objects_to_save[save_pos] is None
-                    objects_to_save[save_pos] = obj
-                    obj._save_pos_ = save_pos
-                obj._status_ = status
+                    assert objects_to_save[cur_save_pos] is None
+                    objects_to_save[cur_save_pos] = obj
+                    obj._save_pos_ = cur_save_pos
+                obj._status_ = cur_status
                 for cache_index, old_key in undo_list: cache_index[old_key] = obj
 
             undo_funcs.append(undo_func)
@@ -5091,9 +5092,13 @@ class Entity(object, metaclass=EntityMeta):
                     assert obj2 is obj
                     undo_list.append((cache_index, vals))
 
-                if status == 'created':
-                    assert save_pos is not None
-                    objects_to_save[save_pos] = None
+                # the object may be a member of its own collections (self-reference): clearing them above can have
+                # changed its status to 'modified' and put it into objects_to_save, so look at the current values
+                cur_status = obj._status_
+                cur_save_pos = obj._save_pos_
+                if cur_status == 'created':
+                    assert cur_save_pos is not None
+                    objects_to_save[cur_save_pos] = None
                     obj._save_pos_ = None
                     obj._status_ = 'cancelled'
                     if obj._pkval_ is not None:
@@ -5102,12 +5107,12 @@ class Entity(object, metaclass=EntityMeta):
                         assert obj2 is obj
                         undo_list.append((pk_index, obj._pkval_))
                 else:
-                    if status == 'modified':
-                        assert save_pos is not None
-                        objects_to_save[save_pos] = None
+                    if cur_status == 'modified':
+                        assert cur_save_pos is not None
+                        objects_to_save[cur_save_pos] = None
                     else:
-                        assert status in ('loaded', 'inserted', 'updated')
-                        assert save_pos is None
+                        assert cur_status in ('loaded', 'inserted', 'updated')
+                        assert cur_save_pos is None
                     obj._save_pos_ = len(objects_to_save)
                     objects_to_save.append(obj)
                     obj._status_ = 'marked_to_delete'
